@@ -1,6 +1,7 @@
 PROPS = ["CTV.Props.C13", "CTV.Model.RetrySpec"]
 HARNESS = [dict(pkg="./jsonclient/", test="TestVerifC13", synctest=True, race=True),
-           dict(pkg="./client/", test="TestVerifC13Client", synctest=True)]
+           dict(pkg="./client/", test="TestVerifC13Client", synctest=True),
+           dict(pkg="./jsonclient/", test="TestVerifC13Pair", synctest=True)]
 RULE = ("(a) sequences of backoff.set(override|nil) on the real unexported backoff struct under virtual time (testing/synctest), compared exactly "
         "(wait, notBefore, multiplier) with the regenerated kernel; (b) PostAndParseWithRetry over a scripted in-memory RoundTripper in virtual time: "
         "response streams over {network error, unparsable 200, 408, 429/503 with Retry-After absent / seconds 0,1,2,30,200,3600,-1 / HTTP-date / junk, "
